@@ -346,8 +346,8 @@ impl fmt::Display for SignalType {
 ///   2. An optional suffix (used to ensure uniqueness when lifting to IR).
 ///   3. An optional version (applied when the CFG is converted to SSA form).
 /// The prefix of the loop counters which are introduced when anonymous
-/// components inside loops are removed (followed by the line and the offset
-/// of the loop).
+/// components inside loops are removed. It is followed by the line and the
+/// offset of the loop (`anon_var_<line>_<offset>`).
 pub const GENERATED_COUNTER_PREFIX: &str = "anon_var_";
 
 #[derive(Clone, Hash, PartialEq, Eq)]
@@ -415,7 +415,12 @@ impl VariableName {
     /// program as written, so there is nothing to report about them.)
     #[must_use]
     pub fn is_generated_counter(&self) -> bool {
-        self.name.starts_with(GENERATED_COUNTER_PREFIX)
+        // The prefix alone is not enough, since it may begin a name chosen by the user.
+        let is_number = |part: &str| !part.is_empty() && part.bytes().all(|byte| byte.is_ascii_digit());
+        self.name
+            .strip_prefix(GENERATED_COUNTER_PREFIX)
+            .and_then(|suffix| suffix.split_once('_'))
+            .is_some_and(|(line, offset)| is_number(line) && is_number(offset))
     }
 
     /// Returns a new copy of the variable name with the version dropped.
